@@ -16,7 +16,7 @@ def whyV (c : ClassD) : Expr → List String
   | .un .lnot e => whyC c e
   | .un _ e => whyV c e
   | .bin op a b => whyV c a ++ whyV c b ++ tagIf (isShiftOp op && !(exact c b)) "narrow-shift"
-  | .cmp op a b => whyV c a ++ whyV c b ++ tagIf (!(safeRhs op b)) "cmp-rhs-prec" ++
+  | .cmp _ a b => whyV c a ++ whyV c b ++
                    tagIf (!(decide (32 ≤ max (sw c a) (sw c b)) || (leaf a && leaf b))) "narrow-compare"
   | .and a b => whyC c a ++ whyC c b ++ tagIf (!(isBool a && isBool b)) "bool-value"
   | .or a b => whyC c a ++ whyC c b ++ tagIf (!(isBool a && isBool b)) "bool-value"
